@@ -174,6 +174,16 @@ Example C10_example_read_exact_bad :
     = ([(BufRead 9 [7; 7; 7], err 5 [1; 2])], 0%nat, Done (OutRx (RxErr (RxOther 5)) [1; 2; 7])).
 Proof. vm_compute. repeat split. Qed.
 
+(* pass-throughs, through the inherent, the async-trait and the async entry points *)
+Example C10_example_passthrough :
+  case_buf EnSync BoWrite [ok 1 []] [] 9 [1; 2]
+    = ([(BufWrite 9 [1; 2], ok 1 [])], 0%nat, Done (OutCount (ROk 1%nat) [])) /\
+  case_buf EnTraitAsync BoRead [ok 2 [0xa; 0xb; 0xc]] [1%nat] 9 [0; 0]
+    = ([(BufRead 9 [0; 0], ok 2 [0xa; 0xb; 0xc])], 2%nat, Done (OutCount (ROk 2%nat) [0xa; 0xb])) /\
+  case_buf EnAsync BoFlush [err 2 []] [] 9 []
+    = ([(BufFlush 9, err 2 [])], 1%nat, Done (OutUnit (RErr 2))).
+Proof. vm_compute. repeat split. Qed.
+
 Print Assumptions C10_passthrough.
 Print Assumptions C10_write_all.
 Print Assumptions C10_write_all_meaning.
